@@ -205,3 +205,62 @@ def stepwise_case(ctx, case):
             td = env.step(td)["next"]
             steps += 1
     ctx.nontrivial_case(dict(c=case))
+
+
+
+def flagged_case(ctx, case):
+    """'steps flagged as irrelevant contribute zero': (a) the real get_log_likelihood on random inputs in both return modes
+    and both input ranks; (b) a real policy forward on an env whose get_reward flags the second half of the steps through
+    td['mask'] (the documented channel), rolled out and re-evaluated in per-step and summed mode."""
+    from rl4co.utils.decoding import get_log_likelihood
+
+    seed, B, T, N = case["s"], case["B"], case["T"], case["N"]
+    g = torch.Generator().manual_seed(seed)
+    sig = dict(policy="-", env="-", decode="flagged_steps")
+    lp3 = torch.log_softmax(torch.randn(B, T, N, generator=g), -1)
+    acts = torch.randint(0, N, (B, T), generator=g)
+    mask = torch.rand(B, T, generator=g) > 0.4
+    want_steps = lp3.gather(-1, acts[..., None]).squeeze(-1) * mask
+    for rank3 in (True, False):
+        for ret_sum in (True, False):
+            inp = lp3.clone() if rank3 else lp3.gather(-1, acts[..., None]).squeeze(-1).clone()
+            got = get_log_likelihood(inp, acts.clone() if rank3 else None, mask.clone(), ret_sum)
+            ctx.evaluation()
+            ctx.count("c11_flagged_function_calls")
+            want = want_steps.sum(1) if ret_sum else want_steps
+            if got.shape != want.shape or not torch.allclose(got, want, atol=1e-6):
+                ctx.violation(dict(sig, q="flagged_steps_nonzero", where="get_log_likelihood", return_sum=ret_sum), f"get_log_likelihood(return_sum={ret_sum}, 3-D input={rank3}): flagged steps do not contribute zero", dict(B=B, T=T))
+                return
+    # (b) through a policy
+    env, O, cfg = policies.env_for("tsp", case.get("n", 8))
+    pol = policies.make("am", env, seed=seed % 5)
+    torch.manual_seed(seed)
+    td0 = env.reset(env.generator(batch_size=[B]))
+    o_reward = env.get_reward
+
+    def get_reward(td, actions):
+        m = torch.ones_like(actions, dtype=torch.bool)
+        m[:, actions.shape[1] // 2 :] = False  # only the first half of the tour matters for this (toy) objective
+        td.set("mask", m)
+        return o_reward(td, actions)
+
+    env.get_reward = get_reward
+    try:
+        with torch.no_grad():
+            torch.manual_seed(seed + 1)
+            out_s = pol(td0.clone(), env, phase="train", decode_type="sampling", return_actions=True)
+            ev_steps = pol(td0.clone(), env, phase="train", actions=out_s["actions"].clone(), return_sum_log_likelihood=False)
+            ev_sum = pol(td0.clone(), env, phase="train", actions=out_s["actions"].clone())
+    finally:
+        env.get_reward = o_reward
+    ctx.evaluation(B)
+    ctx.count("c11_flagged_policy_rows", B)
+    half = out_s["actions"].shape[1] // 2
+    if bool((ev_steps["log_likelihood"][:, half:] != 0).any()):
+        ctx.violation(dict(sig, q="flagged_steps_nonzero", where="policy_per_step"), "re-evaluated per-step log-probs of flagged steps are not zero", dict(B=B))
+        return
+    a, b_, c = out_s["log_likelihood"], ev_steps["log_likelihood"].sum(1), ev_sum["log_likelihood"]
+    if not (torch.allclose(a, b_, atol=1e-4) and torch.allclose(a, c, atol=1e-4)):
+        ctx.violation(dict(sig, q="flagged_roundtrip"), f"with flagged steps, roll-out ll {a.tolist()[:2]} vs re-evaluated per-step sum {b_.tolist()[:2]} vs re-evaluated sum {c.tolist()[:2]}", dict(B=B))
+        return
+    ctx.nontrivial_case(dict(c=case))
